@@ -1,0 +1,62 @@
+//go:build verif
+
+package chat
+
+// govc contracts for this package (see /verif/DESIGN.md). Comment-only.
+
+// ---------------------------------------------------------------- chat type header (C17)
+//
+// Message.ReadFrom / WriteTo go through pk.NBT and the reflective NBT codec: they are NOT
+// verified. They enter as the trusted contract of a deterministic decoder / encoder: decoding
+// succeeds exactly when the reader has not failed and the bytes at the cursor are a well-formed
+// component (msg_ok), and then consumes msg_len bytes; a successful encoder appends a
+// well-formed component of the reported length.
+
+//@ func (*Message).ReadFrom(m; r) (n, err)
+//@   trusted
+//@   let st = stream(r)
+//@   let p0 = old(Spos(st))
+//@   ensures (err == nil) == (!Sfail(st) && msg_ok(Sinrow(st), p0))
+//@   ensures err == nil ==> n == msg_len(Sinrow(st), p0) && Spos(st) == p0 + n
+//@   ensures n >= 0 && Spos(st) >= p0 && n < 1<<40
+//@   modifies *m, stream(r)
+
+//@ func (Message).WriteTo(m; w) (n, err)
+//@   trusted
+//@   let wk = sink(w)
+//@   let l0 = old(Wlen(wk))
+//@   ensures all(k, 0, l0, Wout(wk, k) == old(Wout(wk, k)))
+//@   ensures err == nil ==> n >= 1 && Wlen(wk) == l0 + n && msg_ok(Woutrow(wk), l0) && msg_len(Woutrow(wk), l0) == n
+//@   ensures n >= 0 && Wlen(wk) >= l0 && Wlen(wk) < 1<<40
+//@   ensures Wfail(wk) ==> err != nil
+//@   modifies sink(w)
+
+// Header of a chat type: VarInt id, sender component, Boolean has-target, optional target component.
+//@ func (*Type).ReadFrom(t; r) (n, err)
+//@   let st = stream(r)
+//@   let row = Sinrow(st)
+//@   let p0 = old(Spos(st))
+//@   let k = leb32_run(row, p0)
+//@   let p1 = p0 + k
+//@   let l1 = msg_len(row, p1)
+//@   let p2 = p1 + l1
+//@   let p3 = p2 + 1
+//@   let l3 = msg_len(row, p3)
+//@   requires base(t.TargetName) != base(t)
+//@   ensures !Sfail(st) && k <= 5 && msg_ok(row, p1) && Sin(st, p2) == 0 ==> err == nil && n == k + l1 + 1 && Spos(st) == p0 + n                          [@value @accept]
+//@   ensures !Sfail(st) && k <= 5 && msg_ok(row, p1) && Sin(st, p2) != 0 && msg_ok(row, p3) ==> err == nil && n == k + l1 + 1 + l3 && Spos(st) == p0 + n && !isnil(t.TargetName)   [@value @accept]
+//@   ensures err == nil ==> uint32(t.ID) == leb32_val(row, p0, k) && k <= 5 && msg_ok(row, p1)                                                              [@value]
+//@   ensures Sfail(st) ==> err != nil                                                [@errprop]
+
+//@ func (*Type).WriteTo(t; w) (n, err)
+//@   let wk = sink(w)
+//@   let l0 = old(Wlen(wk))
+//@   let hl = leb32_len(uint32(t.ID))
+//@   requires l0 < 1<<30
+//@   ensures all(k, 0, l0, Wout(wk, k) == old(Wout(wk, k)))                         [@frame]
+//@   ensures err == nil ==> all(q, 0, 5, q < hl ==> Wout(wk, l0+q) == leb32_byte(uint32(t.ID), q))                                                          [@value]
+//@   ensures err == nil ==> Wlen(wk) == l0 + n && n >= hl + 2                         [@count]
+//@   ensures err == nil && isnil(t.TargetName) ==> Wout(wk, Wlen(wk) - 1) == 0         [@value]
+//@   ensures err == nil && !isnil(t.TargetName) ==> n >= hl + 3                        [@count]
+//@   ensures Wfail(wk) ==> err != nil                                                [@errprop]
+//@   modifies sink(w)                                                                [@frame]
